@@ -117,23 +117,20 @@ def handle (op : String) (a : Args) : Option String :=
   | "nest" => do
     let ver ← a.nat "ver"
     let d ← a.nat "d"
-    pure s!"ok:{showCk (nestSig ver d)}:1"
+    let s := nestSig ver d
+    -- the witness is well formed apart from its nesting: the parser accepts it iff the cap does
+    pure s!"ok:{showCk s}:{if (sigCostOf s).ok then 1 else 0}"
   | "within_nest" => do
     let ver ← a.nat "ver"
     let d ← a.nat "d"
     let peak ← a.nat "peak"
     let total ← a.nat "total"
-    -- the cost functions are run on the witness itself up to depth 200 (their own cost is
-    -- quadratic, like the code they model); beyond that the closed form proved equal to them
-    -- (`Rpgp.C19.nest_copy_closed`) is used
-    let direct := d ≤ 200
-    let s := if direct then nestSig ver d else []
-    let copied := if direct then sigCopyOf s else nestCopyClosed ver d
-    let depth := if direct then sigDepthOf s else d
-    -- per nesting level: two subpacket vectors, a boxed Signature, MPI / salt buffers, `rest` slack
-    let perLevel := 16384 * (d + 1) + 65536
-    pure (yes (depth == d && copied ≤ total && total ≤ 4 * copied + perLevel &&
-               copied ≤ peak && peak ≤ 3 * copied + perLevel) s!"{copied}:{depth}")
+    let c := sigCostOf (nestSig ver d)
+    -- per nesting level entered: two subpacket vectors, a boxed Signature, MPI / salt buffers,
+    -- `rest` slack; plus the error value when the cap refuses the input
+    let perLevel := 16384 * (c.reach + 1) + 65536
+    pure (yes (c.reach ≤ Gen.maxEmbeddedSignatureDepth && c.copy ≤ total && total ≤ 4 * c.copy + perLevel &&
+               c.copy ≤ peak && peak ≤ 3 * c.copy + perLevel) s!"{c.copy}:{c.reach}")
   | "within_stream" => do
     let kind ← a.get? "kind"
     let cs ← a.nat "cs"
